@@ -38,6 +38,8 @@ type wireCase struct {
 	Enc    []int             `json:"enc"`
 	Lay    []string          `json:"lay,omitempty"`
 	Inputs json.RawMessage   `json:"inputs,omitempty"`
+	PredB  []string          `json:"predb,omitempty"`
+	PredS  []string          `json:"preds,omitempty"`
 	Extra  map[string]json.RawMessage `json:"-"`
 	Pid    string            `json:"pid"`
 }
@@ -242,6 +244,8 @@ func RunWire(c *Ctx, sp *WireSpec) (int, error) {
 	// 3. commands
 	var cmds []*sup.Cmd
 	executed := 0
+	predictedSkipped := 0
+	budgetB, budgetS := map[string]int{}, map[string]int{}
 	for i, cs := range run.cases {
 		b := ws.Builts[cs.Pid]
 		if !(b.Accepted && b.Compiles) {
@@ -254,6 +258,28 @@ func RunWire(c *Ctx, sp *WireSpec) (int, error) {
 		}
 		if cs.Inputs != nil {
 			j["inputs"] = cs.Inputs
+		}
+		if sp.Op == "corrupt" {
+			// inputs on which the as-is model predicts a runaway are executed only as a sample
+			mk := func(pred []string, budget map[string]int) []bool {
+				sk := make([]bool, len(pred))
+				for k, d := range pred {
+					if d != "" {
+						if _, ok := budget[d]; !ok {
+							budget[d] = 12
+						}
+						if budget[d] > 0 && (k+i)%5 == 0 {
+							budget[d]--
+						} else {
+							sk[k] = true
+							predictedSkipped++
+						}
+					}
+				}
+				return sk
+			}
+			j["skipb"] = mk(cs.PredB, budgetB)
+			j["skips"] = mk(cs.PredS, budgetS)
 		}
 		cmds = append(cmds, &sup.Cmd{Cid: i + 1, Op: sp.Op, JSON: j})
 	}
@@ -481,6 +507,7 @@ func RunWire(c *Ctx, sp *WireSpec) (int, error) {
 		"packages_generated":            len(planList),
 		"packages_rejected":             rejected,
 		"packages_uncompilable":         uncompilable,
+		"inputs_skipped_predicted_known": predictedSkipped,
 		"worker_crashes":                st.Crashes,
 		"worker_ooms":                   st.OOMs,
 		"worker_timeouts":               st.Timeouts,
